@@ -348,13 +348,21 @@ func (x *ctcpSess) inject(e *girc.Event) (lines []string, route string, panicked
 	before := x.s.PanicCount()
 	mark := x.s.Mark()
 	base := runtime.NumGoroutine()
+	ev := e
 	if line := renderLine(e); line != "" {
 		route = "line"
-		x.s.Feed(line)
+		ev = girc.ParseEvent(line)
 	} else {
 		route = "struct"
-		x.s.C.RunHandlers(e)
+		ev = e.Copy()
 	}
+	// what readLoop does before dispatching: a PRIVMSG/NOTICE from the client itself is an
+	// echo (RunHandlers then skips the command's ordinary handlers - but not the CTCP stage)
+	if (ev.Command == "PRIVMSG" || ev.Command == "NOTICE") && ev.Source != nil && ev.Source.ID() == x.s.C.GetID() {
+		ev.Echo = true
+		route += "+echo"
+	}
+	x.s.C.RunHandlers(ev)
 	quiesce(base)
 	lines = x.flush(mark)
 	return lines, route, x.s.PanicCount() != before
